@@ -61,8 +61,8 @@ example : Spec.valuesOfCorrectType vSchema Fixes.all ⟨[opV [] 1 [fld none "s" 
 /-- `{ s(f: true) }` is reported -/
 example : ¬ Spec.valuesOfCorrectType vSchema Fixes.all ⟨[opV [] 1 [fld none "s" [⟨"f", .bool true⟩]]]⟩ := fun h =>
   absurd ((rule_values_of_correct_type_iff vSchema Fixes.all _).mpr h) (by unfold Silent; decide +kernel)
-/-- `{ s(unknown: {k: "x"}) }`: the object literal raises SkipNode WITHOUT an error (its position has no known
-    type); the rule is silent, and the clause holds -/
+/-- `{ s(unknown: {k: "x"}) }`: the position of the object literal has no known type; the rule is silent (and, since
+    fix C06-H5, no longer raises `SkipNode` there: `skip_reports`), and the clause holds -/
 example : Spec.valuesOfCorrectType vSchema Fixes.all
     ⟨[opV [] 1 [fld none "s" [⟨"unknown", .obj [.mk "k" (.str "x")]⟩]]]⟩ :=
   (rule_values_of_correct_type_iff vSchema Fixes.all _).mp (by unfold Silent; decide +kernel)
